@@ -77,7 +77,20 @@ fn pure_models(args: &Args, rng: &mut Rng) -> Vec<Pure> {
         let keep = if args.thorough { recs.len() } else { (recs.len() / 150).max(2) };
         let mut idx: Vec<usize> = (0..recs.len()).collect();
         rng.shuffle(&mut idx);
-        for &i in idx.iter().take(keep) {
+        let mut chosen: Vec<usize> = idx.iter().take(keep).cloned().collect();
+        if !args.thorough {
+            // the quick tier also visits the extremes of the parameter space of every file (longest chain, strongest
+            // association, largest dipole / quadrupole, largest dispersion energy): where the solvers take their rare branches
+            let raw: Vec<Value> = serde_json::from_str(&std::fs::read_to_string(ppath(f)).unwrap()).unwrap();
+            for key in ["m", "epsilon_k_ab", "mu", "q", "epsilon_k"] {
+                let mut best: Vec<(f64, usize)> = raw.iter().enumerate().filter_map(|(i, r)| r["model_record"][key].as_f64().map(|x| (x, i))).collect();
+                best.sort_by(|a, b| b.0.partial_cmp(&a.0).unwrap());
+                for (_, i) in best.iter().take(if f.contains("esper") { 3 } else { 1 }) {
+                    if !chosen.contains(i) { chosen.push(*i); }
+                }
+            }
+        }
+        for &i in chosen.iter() {
             if let Ok(p) = PcSaftParameters::new_pure(recs[i].clone()) {
                 v.push(Pure { name: format!("{}[{}]", f, i), eos: Arc::new(M::PcSaft(PcSaft::new(Arc::new(p)))), calibrated: true, tr_min: 0.45 });
             }
@@ -86,8 +99,9 @@ fn pure_models(args: &Args, rng: &mut Rng) -> Vec<Pure> {
     {
         let f = "saftvrmie/lafitte2013.json";
         let recs: Vec<PureRecord<SaftVRMieRecord>> = serde_json::from_str(&std::fs::read_to_string(ppath(f)).unwrap()).unwrap();
-        let keep = if args.thorough { recs.len() } else { 3 };
-        for (i, r) in recs.iter().enumerate().take(keep) {
+        // quick tier: short and long alkanes, an alcohol, a perfluoroalkane, carbon dioxide
+        let quick = [0usize, 2, 7, 12, 13, 22, 24];
+        for (i, r) in recs.iter().enumerate().filter(|(i, _)| args.thorough || quick.contains(i)) {
             if let Ok(p) = SaftVRMieParameters::new_pure(r.clone()) {
                 v.push(Pure { name: format!("{}[{}]", f, i), eos: Arc::new(M::SaftVRMie(SaftVRMie::new(Arc::new(p)))), calibrated: true, tr_min: 0.45 });
             }
@@ -144,7 +158,8 @@ fn pure_events(tr: &mut Tr, args: &Args, rng: &mut Rng) {
         // the grid of reduced temperatures on which the success clause of C04 was measured; the quick tier takes a
         // random half of the same grid, so that the (rare) known failures are the same inputs in both tiers
         let grid = [0.45, 0.55, 0.65, 0.75, 0.85, 0.92, 0.96, 0.99];
-        let trs: Vec<f64> = if args.thorough { grid.to_vec() } else { grid.iter().cloned().filter(|_| rng.below(2) == 0).collect() };
+        // (the two ends of the grid are always visited)
+        let trs: Vec<f64> = if args.thorough { grid.to_vec() } else { grid.iter().cloned().filter(|&x| x == 0.45 || x == 0.99 || rng.below(2) == 0).collect() };
         for trd in trs {
             if trd < pm.tr_min {
                 continue;
